@@ -214,4 +214,71 @@ theorem staleLog_matches_source (cfg : Cfg) (s : State) (now : Nat) (l : Log) :
       obtain ⟨lc, id⟩ := p
       cases hi : increment lc <;> simp [staleLog, Gen.Src.c17LogTooFewConfirmations, hc, hs, hi]
 
+/-! ### decision trees: order of the tests, nesting and exits regenerated from the source (`kind: tree`) -/
+
+/-- **`updateIdBlock` is the source's decision tree**: stored and `err != nil` → return (exit 1); stored and
+`!shouldUpdate` → return (exit 2); otherwise the block falls through to `Set` (exit 0) — for every cache, id and value -/
+theorem updateIdBlock_tree_matches_source (cfg : Cfg) (c : Cache IdBlocker) (now : Nat) (id : Str) (val : IdBlocker) :
+    updateIdBlock cfg c now id val =
+      if Gen.Src.c17UpdateIdBlockTree (c.get now id).isSome
+          (match c.get now id with | some b => (shouldUpdate b val).isNone | none => false)
+          (match c.get now id with | some b => (shouldUpdate b val).getD false | none => false) = 0
+      then c.set now cfg.window id val else c := by
+  cases h : c.get now id with
+  | none => simp [updateIdBlock, h, Gen.Src.c17UpdateIdBlockTree]
+  | some b =>
+    cases h2 : shouldUpdate b val with
+    | none => simp [updateIdBlock, h, h2, Gen.Src.c17UpdateIdBlockTree]
+    | some su => cases su <;> simp [updateIdBlock, h, h2, Gen.Src.c17UpdateIdBlockTree]
+
+/-- **`Accept` is the source's decision tree**: split error → `return err` (exit 1, nothing written) whether or not the
+key is active — the error the accept loop of the plugin reads; otherwise the `!ok` block (an effect) and `return nil`
+(exit 2) -/
+theorem accept_tree_matches_source (cfg : Cfg) (s : State) (now : Nat) (key : Str) :
+    (∀ splitFailed found, Gen.Src.c17AcceptTree splitFailed found = if splitFailed then 1 else 2) ∧
+    accept cfg s now key =
+      if Gen.Src.c17AcceptTree (splitUpkeepKey key).isNone (s.activeKeys.get now key).isSome = 1 then s
+      else match splitUpkeepKey key with
+        | none => s
+        | some (blockKey, id) =>
+          if Gen.Src.c17AcceptKeyNew (s.activeKeys.get now key).isSome then
+            { activeKeys := s.activeKeys.set now activeTtlNs key false
+              idBlocks := updateIdBlock cfg s.idBlocks now id { check := blockKey, transmit := indefinite } }
+          else s := by
+  refine ⟨fun sf found => by cases sf <;> cases found <;> rfl, ?_⟩
+  cases hs : splitUpkeepKey key with
+  | none => simp [accept, hs, Gen.Src.c17AcceptTree]
+  | some p =>
+    obtain ⟨bk, id⟩ := p
+    cases hk : s.activeKeys.get now key <;> simp [accept, hs, hk, Gen.Src.c17AcceptTree, Gen.Src.c17AcceptKeyNew]
+
+/-- **`IsTransmissionConfirmed`**: one exit, returning `!ok || (ok && confirmed)` -/
+theorem isConfirmed_tree_matches_source (s : State) (now : Nat) (key : Str) :
+    isConfirmed s now key =
+      Gen.Src.c17ConfirmedTreeVal (s.activeKeys.get now key).isSome ((s.activeKeys.get now key).getD false)
+        (Gen.Src.c17ConfirmedTree (s.activeKeys.get now key).isSome ((s.activeKeys.get now key).getD false)) := by
+  unfold isConfirmed
+  cases s.activeKeys.get now key with
+  | none => rfl
+  | some c => cases c <;> rfl
+
+/-- **the perform-log loop body of `checkLogs` is the source's decision tree**: too few confirmations → `continue`
+(exit 1); split error → `continue` (exit 2); every other path runs to the end of the body (exit 0: the shared
+`processLog` part, whose nested `if`s have no exit) — for every log and whatever the nested conditions evaluate to -/
+theorem performLog_tree_matches_source (cfg : Cfg) (s : State) (now : Nat) (l : Log)
+    (found confirmed : Bool) (sc lc st lt : Str) :
+    performLog cfg s now l =
+      if Gen.Src.c17PerformLoopTree l.confs cfg.minConfs (splitUpkeepKey l.key).isNone found confirmed sc lc st lt = 0 then
+        match splitUpkeepKey l.key with
+        | none => s
+        | some (logCheck, id) => processLog cfg s now l.key logCheck id l.transmit
+      else s := by
+  by_cases hc : l.confs < cfg.minConfs
+  · simp [performLog, hc, Gen.Src.c17PerformLoopTree]
+  · cases hs : splitUpkeepKey l.key with
+    | none => simp [performLog, hc, hs, Gen.Src.c17PerformLoopTree]
+    | some p =>
+      obtain ⟨lc', id⟩ := p
+      cases found <;> cases confirmed <;> simp [performLog, hc, hs, Gen.Src.c17PerformLoopTree]
+
 end AutoVerif.C17
